@@ -1,6 +1,7 @@
 import BridgeVerif.Props.C07
 import BridgeVerif.Translated.Score
 import BridgeVerif.Translated.Contract
+import BridgeVerif.Translated.CalcScore
 /-!
 # C07 — the same statements for the code AS TRANSLATED from the source on this run
 (kept apart from Props/C07.lean so that the lemma files which reuse the property theorems do not depend on the generated
@@ -32,5 +33,21 @@ when one side only is vulnerable -/
 theorem translated_contract_is_model (c : Contract) : Translated.contractAgrees c = true :=
   Translated.contract_class_translated c
 
+
+open Bridge.Py Bridge.Generated.PyCore in
+/-- THE TRANSLATED public entry `calc_score(contract, taken_tricks)` — the one that derives the vulnerability from the
+board's vulnerability and the declarer — is the duplicate scoring law from declarer's side, on every contract with a
+declarer and 0..13 tricks (symbolic execution of `calc_score` and `Contract.is_vul`, the nested `calc_bid_score` by the
+kernel-evaluated theorem lifted to every fuel) -/
+theorem translated_calc_score_is_law (b : Fin 35) (x xx : Bool) (v : Vul) (d : Seat) (t : Nat) (ht : t ≤ 13) :
+    (Translated.fn n_calc_score [Translated.encContract ⟨some b, x, xx, v, some d⟩, .int t]).int?
+      = some (dupScore (bidLevel b) (bidDenom b) (status x xx) (sideVulnerable v d) t) :=
+  Translated.calc_score_translated_is_law b x xx v d t ht
+
+open Bridge.Py Bridge.Generated.PyCore in
+/-- a passed-out contract scores 0 -/
+theorem translated_calc_score_passed_out (x xx : Bool) (v : Vul) (d : Option Seat) (t : Nat) :
+    (Translated.fn n_calc_score [Translated.encContract ⟨none, x, xx, v, d⟩, .int t]).int? = some 0 :=
+  Translated.calc_score_translated_passed_out x xx v d t
 
 end Bridge.C07t
